@@ -17,8 +17,13 @@ class Placer:
         self.buf = {}          # offset -> bytes
         self.by_content = {}   # content -> offset (shared storage)
         self.names = []        # (offset, bytes incl. NUL)
+        self.far = knobs.get("far", 0)   # one junk gap of this many bytes somewhere: offsets beyond 16 bits
 
     def gap(self):
+        if self.far and self.rng.random() < 0.4:
+            self.buf[self.pos] = bytes(self.rng.getrandbits(8) for _ in range(64)) * (self.far // 64)
+            self.pos += 64 * (self.far // 64)
+            self.far = 0
         if self.knobs.get("gaps") and self.rng.random() < 0.6:
             n = self.rng.randrange(1, 12)
             self.buf[self.pos] = bytes(self.rng.randrange(256) for _ in range(n))
